@@ -72,11 +72,13 @@ type op struct {
 	Pref bool `json:"pref,omitempty"`
 }
 
+// Domain decision (coordinator): a hand-built MD may have mixed-case keys, but
+// no two keys of one map are equal under ASCII case folding; colliding entries
+// of a literal are dropped, direct writes never insert a colliding key, and an
+// MD with colliding keys that the API itself produced (Join of {"K"} and {"k"})
+// is never attached to a context.
 type plan struct {
-	// Collide allows user-built MDs whose keys collide under case folding
-	// (e.g. {"K":..,"k":..}); otherwise later colliding entries are dropped.
-	Collide bool `json:"collide"`
-	Ops     []op `json:"ops"`
+	Ops []op `json:"ops"`
 }
 
 // ---------------------------------------------------------------- model
@@ -385,6 +387,17 @@ func applyMuts(md metadata.MD, model mdModel, muts []mut) int {
 			if m.S == "" {
 				continue
 			}
+			if _, exact := model[m.S]; !exact {
+				dup := false
+				for k := range model {
+					if lower(k) == lower(m.S) {
+						dup = true
+					}
+				}
+				if dup {
+					continue // would make two keys equal under case folding
+				}
+			}
 			md[m.S] = []string{"inserted"}
 			model[m.S] = []string{"inserted"}
 		case 4: // truncate
@@ -510,10 +523,7 @@ func (w *world) exec(i int, o op) *mismatch {
 				continue
 			}
 			if seen[lower(e[0])] {
-				if !w.p.Collide {
-					continue
-				}
-				w.class("user_md_casefold_collision")
+				continue
 			}
 			seen[lower(e[0])] = true
 			md[e[0]] = append([]string{}, e[1:]...)
@@ -618,10 +628,7 @@ func (w *world) exec(i int, o op) *mismatch {
 		if !o.Nil && len(o.B) > 0 {
 			// MDs whose keys collide under case folding are only used as
 			// context metadata when the plan allows it (known finding).
-			if e := w.pickMD(o.B[0], func(e *mdEntry) bool { return w.p.Collide || !e.model.collides() }); e != nil {
-				if e.model.collides() {
-					w.class("ctx_md_casefold_collision")
-				}
+			if e := w.pickMD(o.B[0], func(e *mdEntry) bool { return !e.model.collides() }); e != nil {
 				e.frozen = true
 				md = e.md
 				base = e.model // frozen: shared with the (now immutable) MD entry
@@ -764,11 +771,7 @@ func run(_ *testing.T, p plan) vk.Result {
 			mm = w.verifyAll(fmt.Sprintf("op %d %s", i, opNames[o.K]))
 		}
 		if mm != nil {
-			r := vk.Bad("%s", mm.msg)
-			if mm.collision {
-				r.Sig = "c28.casefold_collision_in_user_md"
-			}
-			return r
+			return vk.Bad("%s", mm.msg)
 		}
 		w.steps++
 	}
@@ -918,11 +921,11 @@ func genOp(rt *rapid.T) op {
 	return o
 }
 
-func genPlan(collide bool) func(rt *rapid.T) plan {
+func genPlan() func(rt *rapid.T) plan {
 	return func(rt *rapid.T) plan {
 		max := vk.Pick(24, 60)
 		n := rapid.IntRange(8, max).Draw(rt, "nops")
-		p := plan{Collide: collide}
+		p := plan{}
 		for i := 0; i < n; i++ {
 			o := genOp(rt)
 			// most plans start by putting metadata into a context
@@ -948,14 +951,6 @@ func TestVerifC28API(t *testing.T) {
 	vk.Check(t, vk.Unit[plan]{
 		ID: "C28", Name: "api",
 		Rule: "8..24 (thorough 60) ops over pools of contexts (a tree: any earlier ctx can be extended) and MDs: Pairs/New/literal MD with mixed-case keys/Join/Copy/Set/Append/Delete/Get/direct writes, NewOutgoingContext/AppendToOutgoingContext/FromOutgoingContext/ValueFromOutgoingContext and the Incoming trio; keys = 8 base names in random case + random short keys over [a-zA-Z0-9-_.]; every returned map/slice is written to per plan; all pool members re-read after every op. non-trivial = a value returned by Copy/FromX/ValueFromX was written to AND afterwards AppendToOutgoingContext added >= 1 pair to a ctx that already had outgoing metadata",
-		Gen:  genPlan(false), Run: run,
-	})
-}
-
-func TestVerifC28Collide(t *testing.T) {
-	vk.Check(t, vk.Unit[plan]{
-		ID: "C28", Name: "collide",
-		Rule: "same plans as unit api, but user-built MD literals may contain keys that collide under case folding ({\"K\":..,\"k\":..}); expected result = all pairs under the lowercase key (compared as a multiset for colliding keys: their relative order is map iteration order). Mismatches on such keys carry signature c28.casefold_collision_in_user_md",
-		Gen:  genPlan(true), Run: run,
+		Gen:  genPlan(), Run: run,
 	})
 }
